@@ -217,6 +217,16 @@ def gen_math(rng):
 
 
 def gen_duplication(rng):
+    if rng.random() < 0.1:
+        # a literal set with more than ten variables: the auxiliary atom's arguments are numbered __AUX_0 .. __AUX_10,
+        # whose lexicographic order is not their numeric order
+        n = rng.choice([9, 10, 11, 12])
+        vs = [chr(ord("A") + i) for i in range(n)]
+        k = n // 2
+        shared = f"leg({','.join(vs[:k + 1])}), hop({','.join(vs[k:])})"
+        return (f"reach({vs[0]},{vs[-1]}) :- {shared}, fee({vs[-1]},W0), W0 > 1.\n"
+                f"direct({vs[0]},{vs[-2]}) :- {shared}, ok({vs[1]}).\n"
+                f":~ {shared}, fee({vs[-1]},W0). [W0@1,{vs[0]}]")
     shared = rng.choice(["a(X), b(X)", "a(X), b(X,Y), Y > 1", "a(X), not c(X)", "price(I,2*H), sale(I)", "w(T,W), not ex(G,W)",
                          "a(X), b(X,Y), c(Y)"])
     v = "X" if "X" in shared else ("I" if "I" in shared else "T")
@@ -257,6 +267,10 @@ def gen_symmetry(rng):
     extra = rng.choice(["", "", f", q({vs[0]},V1), q({vs[1]},V2), V1 != V2", f", r({vs[0]})", ", ok(S)" if shared else "",
                         # a second group that shares one unequal variable / uses one at an equal position
                         f", q({vs[1]}), q(Z), {vs[1]} != Z", f", m({vs[0]},V1), m({vs[0]},V2), V1 != V2"])
+    if rng.random() < 0.1 and k == 2:  # one copy carries a constant where the other has the variable: no symmetry
+        c0 = rng.choice(["1", "2", "a"])
+        atoms = [f"p({vs[0]}{shared})", f"p({c0}{shared})"]
+        cmps = [rng.choice([f"{vs[0]} != {c0}", f"{vs[0]} > {c0}", f"not {vs[0]} = {c0}"])]
     if rng.random() < 0.08:  # the unequal variable also at an `equal' position of the copies
         atoms = [f"p({vs[0]},{vs[0]})", f"p({vs[1]},{vs[0]})"] + atoms[2:]
     head = rng.choice(["", "", "f", f"g({'S' if shared else '1'})", f"h({vs[0]})"])
@@ -297,6 +311,10 @@ def gen_unused(rng):
         lines.append(f"#show f(X) : {last}(X,_). g :- {chain[0]}(_,_).")
     if rng.random() < 0.3:
         lines.append(f"{chain[0]}(X,X) :- back(X), {last}(X,_).")
+    if rng.random() < 0.15:
+        # a literal with a sign in the HEAD is a use of its predicate: `not a :- B.` is `:- B, a.`, `not not a :- B.` is
+        # `:- B, not a.`
+        lines.append(f"{rng.choice(['not', 'not not'])} side(X,Y) :- d(X), e(Y), m(Y). side(X,Y) :- {last}(X,Y){rng.choice(['', ', X != Y'])}.")
     return "\n".join(lines)
 
 
